@@ -1,5 +1,5 @@
 ---------------------------- MODULE RoutingSample ----------------------------
 (* The meshes a sampled run of MC_Routing explores.  This file holds a small default; the harness overwrites  *)
 (* it in the TLC work directory with the seeded, stratified sample of the run (harness/checks/c11.py).        *)
-SampleMeshIds == {0, 1, 27, 283, 1365, 2047, 2730, 3003, 4095}
+SampleMeshIds == {0, 1, 27, 283, 1365, 2047, 3906, 7812, 9000, 11718, 15624}
 ==============================================================================
